@@ -30,8 +30,12 @@ var fillSpecs = []fillSpec{
 	{"UpTrack.GetPacket", func(p *Program, f *types.Func) bool {
 		return p.ifaceMethodIs(f, "conn", "UpTrack", "GetPacket") || fnIs(f, "rtpconn", "rtpUpTrack", "GetPacket")
 	}, 1, 0, true},
-	{"TrackRemote.Read", func(p *Program, f *types.Func) bool { return extMethodIs(f, "github.com/pion/webrtc/", "TrackRemote", "Read") }, 0, 0, false},
-	{"Packet.MarshalTo", func(p *Program, f *types.Func) bool { return extMethodIs(f, "github.com/pion/rtp", "Packet", "MarshalTo") }, 0, 0, false},
+	{"TrackRemote.Read", func(p *Program, f *types.Func) bool {
+		return extMethodIs(f, "github.com/pion/webrtc/", "TrackRemote", "Read")
+	}, 0, 0, false},
+	{"Packet.MarshalTo", func(p *Program, f *types.Func) bool {
+		return extMethodIs(f, "github.com/pion/rtp", "Packet", "MarshalTo")
+	}, 0, 0, false},
 }
 
 type fillSite struct {
